@@ -460,8 +460,9 @@ impl<'lexer> Lexer<'lexer> {
     match pair {
       (Some('/'), Some('/')) => {
         self.position += 2;
+        // a line comment ends with the line: at a line feed or at a carriage return
         while let Some(ch) = self.char_at(0) {
-          if ch == '\n' {
+          if ch == '\n' || ch == '\r' {
             return;
           }
           self.position += 1;
